@@ -168,4 +168,104 @@ theorem foldl_depth_congr {κ} [DecidableEq κ] (key : Component → κ) (S : Co
     have := ih (max d (commonLen n q)) (fun m hm => hn m (by simp [hm]))
     simpa using this
 
+/-! ### tables with removal: the set of names a table holds, under insert / remove / lookup -/
+
+inductive TOp where
+  | ins (n : Name)      -- insert unless present
+  | rem (n : Name)      -- remove if present
+  | has (n : Name)      -- lookup
+deriving Repr
+
+/-- a keyed table as a set of key paths; returns one observation character per operation:
+    n(ew) / e(xisting), r(emoved) / m(issing), 1 / 0 -/
+def tabrStep {κ} [DecidableEq κ] (key : Component → κ) (s : List (List κ)) : TOp → List (List κ) × Char
+  | .ins n => if n.map key ∈ s then (s, 'e') else (s ++ [n.map key], 'n')
+  | .rem n => if n.map key ∈ s then (s.filter (fun x => decide (x ≠ n.map key)), 'r') else (s, 'm')
+  | .has n => (s, if n.map key ∈ s then '1' else '0')
+
+def tabrRun {κ} [DecidableEq κ] (key : Component → κ) : List (List κ) → List TOp → List Char
+  | _, [] => []
+  | s, op :: ops => let r := tabrStep key s op; r.2 :: tabrRun key r.1 ops
+
+def TOp.name : TOp → Name
+  | .ins n | .rem n | .has n => n
+
+theorem mem_map_key {κ} (key : Component → κ) (S : Component → Prop)
+    (hinj : ∀ a b, S a → S b → key a = key b → a = b) (s : List Name) (hs : ∀ m ∈ s, ∀ c ∈ m, S c)
+    (n : Name) (hn : ∀ c ∈ n, S c) : n.map key ∈ s.map (·.map key) ↔ n ∈ s := by
+  constructor
+  · intro h
+    obtain ⟨m, hm, e⟩ := List.mem_map.mp h
+    have := map_inj_of_inj key S hinj m n (hs m hm) hn e
+    rw [← this]; exact hm
+  · intro h; exact List.mem_map.mpr ⟨n, h, rfl⟩
+
+theorem filter_map_key {κ} [DecidableEq κ] (key : Component → κ) (S : Component → Prop)
+    (hinj : ∀ a b, S a → S b → key a = key b → a = b) (s : List Name) (hs : ∀ m ∈ s, ∀ c ∈ m, S c)
+    (n : Name) (hn : ∀ c ∈ n, S c) :
+    (s.map (·.map key)).filter (fun x => decide (x ≠ n.map key)) = (s.filter (fun x => decide (x ≠ n))).map (·.map key) := by
+  induction s with
+  | nil => rfl
+  | cons m t ih =>
+    have ht := ih (fun x hx => hs x (by simp [hx]))
+    simp only [List.map_cons, List.filter_cons]
+    by_cases e : m = n
+    · subst e; simp only [ne_eq, not_true_eq_false, decide_false, Bool.false_eq_true, if_false]; exact ht
+    · have : ¬ m.map key = n.map key := fun h2 => e (map_inj_of_inj key S hinj m n (hs m (by simp)) hn h2)
+      simp only [ne_eq, e, this, not_false_eq_true, decide_true, if_true, List.map_cons, ht]
+
+theorem tabrRun_map {κ} [DecidableEq κ] (key : Component → κ) (S : Component → Prop)
+    (hinj : ∀ a b, S a → S b → key a = key b → a = b) :
+    ∀ (ops : List TOp) (s : List Name), (∀ m ∈ s, ∀ c ∈ m, S c) → (∀ op ∈ ops, ∀ c ∈ op.name, S c) →
+      tabrRun key (s.map (·.map key)) ops = tabrRun id s ops := by
+  intro ops
+  induction ops with
+  | nil => intros; rfl
+  | cons op ops ih =>
+    intro s hs hops
+    have hn : ∀ c ∈ op.name, S c := hops op (by simp)
+    have hrest : ∀ o ∈ ops, ∀ c ∈ o.name, S c := fun o ho => hops o (by simp [ho])
+    cases op with
+    | ins n =>
+      simp only [TOp.name] at hn
+      have hm := mem_map_key key S hinj s hs n hn
+      simp only [tabrRun, tabrStep, List.map_id]
+      by_cases hc : n ∈ s
+      · have hk := hm.mpr hc
+        simp only [hk, hc, if_true, List.map_id n]
+        have := ih s hs hrest
+        simp only [this]
+      · have hk : ¬ n.map key ∈ s.map (·.map key) := fun h => hc (hm.mp h)
+        simp only [hk, hc, if_false, List.map_id n]
+        have := ih (s ++ [n]) (by
+          intro m hm; rcases List.mem_append.mp hm with h | h
+          · exact hs m h
+          · simp at h; subst h; exact hn) hrest
+        simp only [List.map_append, List.map_cons, List.map_nil] at this
+        simp only [this]
+    | rem n =>
+      simp only [TOp.name] at hn
+      have hm := mem_map_key key S hinj s hs n hn
+      simp only [tabrRun, tabrStep, List.map_id]
+      by_cases hc : n ∈ s
+      · have hk := hm.mpr hc
+        simp only [hk, hc, if_true, List.map_id n]
+        rw [filter_map_key key S hinj s hs n hn]
+        have := ih (s.filter (fun x => decide (x ≠ n))) (fun m hm => hs m (List.mem_filter.mp hm).1) hrest
+        simp only [this]
+      · have hk : ¬ n.map key ∈ s.map (·.map key) := fun h => hc (hm.mp h)
+        simp only [hk, hc, if_false, List.map_id n]
+        have := ih s hs hrest
+        simp only [this]
+    | has n =>
+      simp only [TOp.name] at hn
+      have hm := mem_map_key key S hinj s hs n hn
+      simp only [tabrRun, tabrStep, List.map_id]
+      have := ih s hs hrest
+      by_cases hc : n ∈ s
+      · have hk := hm.mpr hc
+        simp only [hk, hc, if_true, this, List.map_id n]
+      · have hk : ¬ n.map key ∈ s.map (·.map key) := fun h => hc (hm.mp h)
+        simp only [hk, hc, if_false, this, List.map_id n]
+
 end Ndn.C14
